@@ -107,7 +107,7 @@ pub fn campaigns(ctx: &Ctx) -> Stats {
     let mut st = Stats::default();
     let t = ctx.tier;
     // every pair in which the first shape is really broadcast (differs from the result's shape)
-    let pairs: Vec<(Vec<usize>, Vec<usize>)> = admissible_pairs(&all_shapes(t.pick(3, 4), 3)).into_iter().filter(|(a, b)| broadcast_dims(a, b).unwrap() != *a).collect();
+    let pairs: Vec<(Vec<usize>, Vec<usize>)> = admissible_pairs(&t.pick(quick_shapes(), all_shapes(4, 3))).into_iter().filter(|(a, b)| broadcast_dims(a, b).unwrap() != *a).collect();
     let np = pairs.len() as u64;
     // (operation 4) x (pattern 5) x (passes 2) x (operand order 2)
     st.merge(ctx.run_indexed(
